@@ -8,6 +8,7 @@ package main
 
 import (
 	"crypto/ecdsa"
+	"encoding/hex"
 	"errors"
 	"fmt"
 	"io"
@@ -367,16 +368,20 @@ func (x *pmExec) exec(cs Case) {
 	for i, m := range cs.Msgs {
 		contents[i] = m.Payload.bytes()
 	}
+	var hsBytes []byte
+	if cs.HS != nil {
+		hsBytes = cs.HS.bytes()
+	}
 	a := startAlloc() // the harness's own buffers are built before this point
 	ans0 := atomic.LoadInt64(&x.answered)
 	sent := int64(0)
 	outcome := "kept"
 	if cs.HS != nil {
 		x.disconnect()
-		if !x.connect(cs.HS, cs.HSCode) {
+		if !x.connect(&Payload{Raw: []Seg{{Hex: hex.EncodeToString(hsBytes)}}}, cs.HSCode) {
 			outcome = "refused"
 		}
-		sent += int64(len(cs.HS.bytes()))
+		sent += int64(len(hsBytes))
 	} else if x.cur == nil || x.cur.isClosed() {
 		x.cur = nil
 		if !x.connect(nil, 0) {
@@ -439,7 +444,6 @@ func (x *pmExec) exec(cs Case) {
 // Returns false when the process should be replaced.
 func (x *pmExec) groupEnd() bool {
 	wit := map[string]interface{}{"window": append([]Case(nil), x.window...)}
-	a := startAlloc()
 	time.Sleep(650 * time.Millisecond) // one period of the block cache timer (500 ms)
 	ok, _ := x.alive()
 	if !ok && !x.dead {
@@ -452,9 +456,12 @@ func (x *pmExec) groupEnd() bool {
 	}
 	x.disconnect()
 	good := x.gm.check(x.s, "c", 4*time.Second, wit)
-	// the group as a whole: nothing may keep allocating after the remote is gone
-	if d := a.delta(); d > allocBound(0) {
-		x.s.Violation("C15/allocation-out-of-proportion:c:keeps-allocating-after-remote-left", fmt.Sprintf("the node allocated %d bytes (%.1f MiB) after the remote stopped sending and left", d, float64(d)/MiB), wit)
+	// once the work the remote had asked for is done (or the settle time is over) nothing may keep
+	// allocating: a quiet window of 300 ms must stay far below one frame
+	a := startAlloc()
+	time.Sleep(300 * time.Millisecond)
+	if d := a.delta(); d > 16*MiB {
+		x.s.Violation("C15/allocation-out-of-proportion:c:keeps-allocating-after-remote-left", fmt.Sprintf("the node allocated %d bytes (%.1f MiB) within 300 ms, seconds after the remote stopped sending and left", d, float64(d)/MiB), wit)
 		good = false
 	}
 	x.repMu.Lock()
